@@ -1,2 +1,8 @@
 import TransportVerif.Props.C15
-#print axioms TV.Props.C15.placeholder
+#print axioms TV.Props.C15.refill_bounds
+#print axioms TV.Props.C15.interval_bound
+#print axioms TV.Props.C15.run_bound
+#print axioms TV.Props.C15.forwarded_is_ordered_sublist
+#print axioms TV.Props.C15.dropped_only_when_full
+#print axioms TV.Props.C15.full_queue_drops
+#print axioms TV.Props.C15.fresh_meets_hypotheses
